@@ -409,7 +409,7 @@ theorem register_spec (g : Grammar) (s : St) (el : Nat) (n : Node) (parent : Opt
     · exact Or.inl (a2 u hh)
     · exact Or.inr hh.1
 
-theorem seenOf_named (g : Grammar) (s : St) (el : Nat) (st : EState) (h : seenOf g s el = .named st) :
+theorem seenOf_named_lk (g : Grammar) (s : St) (el : Nat) (st : EState) (h : seenOf g s el = .named st) :
     aget s.lookup el = some st ∧ st.name.isSome := by
   unfold seenOf at h
   split at h
@@ -423,7 +423,7 @@ theorem seenOf_named (g : Grammar) (s : St) (el : Nat) (st : EState) (h : seenOf
     · split at h <;> exact absurd h (by simp)
   · exact absurd h (by simp)
 
-theorem seenOf_inDiagram (g : Grammar) (s : St) (el : Nat) (d : DEntry) (h : seenOf g s el = .inDiagram d) :
+theorem seenOf_inDiagram_lk (g : Grammar) (s : St) (el : Nat) (d : DEntry) (h : seenOf g s el = .inDiagram d) :
     aget s.diagrams el = some d := by
   unfold seenOf at h
   split at h
@@ -457,7 +457,7 @@ theorem pre_ret_spec (g : Grammar) (o : Opts) (el : Nat) (n : Node) (p : Option 
   · exact absurd hp (by simp)
   · split at hp
     · rename_i st hseen
-      obtain ⟨hst, hsome⟩ := seenOf_named g s el st hseen
+      obtain ⟨hst, hsome⟩ := seenOf_named_lk g s el st hseen
       simp only [newNT, Pre.ret.injEq] at hp
       obtain ⟨_, rfl⟩ := hp
       obtain ⟨m1, _, m3, m4⟩ := mark_spec g s el h hl (fun st' hst' => by
@@ -472,7 +472,7 @@ theorem pre_ret_spec (g : Grammar) (o : Opts) (el : Nat) (n : Node) (p : Option 
           m3 el (Or.inr ⟨st, hst, (hl.lk el st hst).1 hsome⟩)⟩) m1
       exact ⟨a1, fun u hu => m4 ⟨st, hst, hsome⟩ u (a2 u hu), fun u hu => a3 u (m3 u hu)⟩
     · rename_i d hseen
-      have hd := seenOf_inDiagram g s el d hseen
+      have hd := seenOf_inDiagram_lk g s el d hseen
       simp only [newNT, Pre.ret.injEq] at hp
       obtain ⟨_, rfl⟩ := hp
       have hnm := hl.dg el d hd
